@@ -204,15 +204,27 @@ def guard_kinds(repo, ci, fn, keyp, depth=2):
                 kinds.add("absolute")
             if "relative_to" in txt:
                 kinds |= {"dotdot", "absolute"}
-        for d in __import__("sa.core", fromlist=["flatten_boolop"]).flatten_boolop(n.ast, ast.Or):
-            if isinstance(d, ast.UnaryOp) and isinstance(d.op, ast.Not) and ("allow_root" in U(d) or names_of(d.operand) & derived):
-                # `not (parts or allow_root)` / `not parts`: the operand tested for emptiness must be the *normalised* component list
-                ops = __import__("sa.core", fromlist=["flatten_boolop"]).flatten_boolop(d.operand, ast.Or)
-                ops = [o for o in ops if U(o) != "allow_root"]
-                if ops and all(is_normalised_parts(fn, o) for o in ops):
-                    kinds.add("root")
-                elif ops:
-                    kinds.add("root-raw")
+        # root guard, in negation normal form: a disjunct made of `not <components>` (and optionally `not allow_root`)
+        from ..lib import nnf
+        tree = nnf(n.ast, True)
+        for part in (tree[1] if tree[0] == "or" else [tree]):
+            lits_ = [part] if part[0] == "lit" else [x for x in part[1] if x[0] == "lit"] if part[0] == "and" else []
+            neg = [t_ for _, t_, p_ in lits_ if p_ is False]
+            subjects = [t_ for t_ in neg if t_ != "allow_root"]
+            if not subjects or any(p_ is True for _, _, p_ in lits_):
+                continue
+            if not any((set(__import__("re").findall(r"[A-Za-z_]\w*", t_)) & derived) for t_ in subjects):
+                continue
+            exprs = []
+            for t_ in subjects:
+                try:
+                    exprs.append(ast.parse(t_, mode="eval").body)
+                except SyntaxError:
+                    pass
+            if exprs and all(is_normalised_parts(fn, e_) for e_ in exprs):
+                kinds.add("root")
+            else:
+                kinds.add("root-raw")
     if depth > 0:
         for c in calls_in(fn):
             if call_recv(c) == "self" and c.args and names_of(c.args[0]) & derived:
